@@ -10,6 +10,8 @@ All statements are for every ring, every request sequence (install / use / remov
 valid keys, wrong lengths, absent keys, the primary, duplicates, undecodable payloads).
 -/
 import SerfProofs.Lemmas.Keyring
+import SerfModel.Model.SourceShape
+import SerfModel.Gen.KeyringPersist
 namespace SerfProofs.C22
 open SerfModel.Keyring SerfProofs.Keyring
 
@@ -168,5 +170,301 @@ theorem C22_no_file (n : Node) (op : Op) (key : Option Key) (hf : n.hasFile = fa
     · split
       · rfl
       · cases op <;> simp [writeKeyringFile, hf]
+
+/-! ## from the agent's start, without assumptions on the ring
+
+`RingOK` is not an assumption about the node: it is what the loader produces, for every
+file content (`C22_loader_wellformed`).  A node started from a keyring file `f` therefore
+satisfies the invariant "the file loads to the ring" from the first moment — also when `f`
+was edited by hand (duplicates: the file then differs from the ring as a list, but still
+loads to it) — and every request, accepted or rejected, keeps it. -/
+
+/-- **Whatever `loadKeyringFile` accepts is a well-formed ring**, for every file content. -/
+theorem C22_loader_wellformed (f : List Key) (r : Ring) (h : load f = some r) : RingOK r := load_RingOK f r h
+
+example : load [List.replicate 16 7, List.replicate 16 7, List.replicate 24 9] = some [List.replicate 16 7, List.replicate 24 9] := by decide
+
+/-- The loader's acceptance rule: a file with an entry that is not 16, 24 or 32 bytes long is
+refused as a whole (no entry is dropped silently), and so is an empty file. -/
+theorem C22_loader_rejects_invalid (f : List Key) (k : Key) (hk : k ∈ f) (hv : validKey k = false) : load f = none := by
+  cases h : load f with
+  | none => rfl
+  | some r =>
+    exfalso
+    -- every key of the file ends up in the ring, and the ring holds valid keys only
+    have hok := load_RingOK f r h
+    have hsub : ∀ (l : List Key) (acc r' : Ring), l.foldlM addKey? acc = some r' → (∀ x ∈ acc, x ∈ r') ∧ (∀ x ∈ l, x ∈ r') := by
+      intro l
+      induction l with
+      | nil => intro acc r' h'; simp at h'; subst h'; exact ⟨fun x hx => hx, by simp⟩
+      | cons a rest ih =>
+        intro acc r' h'
+        rw [List.foldlM_cons] at h'
+        cases ha : addKey? acc a with
+        | none => rw [ha] at h'; simp at h'
+        | some acc' =>
+          rw [ha] at h'
+          simp only [Option.bind_eq_bind, Option.bind_some] at h'
+          have hstep : (∀ x ∈ acc, x ∈ acc') ∧ a ∈ acc' := by
+            unfold addKey? at ha
+            cases hr : addKey acc a with
+            | error e => rw [hr] at ha; simp [Except.toOption] at ha
+            | ok r0 =>
+              rw [hr] at ha
+              simp only [Except.toOption, Option.some.injEq] at ha
+              subst ha
+              exact addKey_ok_mem acc a r0 hr
+          have := ih acc' r' h'
+          exact ⟨fun x hx => this.1 x (hstep.1 x hx), fun x hx => by
+            rcases List.mem_cons.mp hx with e | e
+            · subst e; exact this.1 _ hstep.2
+            · exact this.2 x e⟩
+    cases f with
+    | nil => simp [load] at h
+    | cons p rest =>
+      unfold load newKeyring at h
+      simp only [List.isEmpty_cons, Bool.false_and, Bool.false_eq_true, ↓reduceIte] at h
+      split at h
+      · cases h
+      · have := (hsub _ _ _ h).2 k (List.mem_cons_of_mem _ hk)
+        have := hok.2.2 k this
+        simp [hv] at this
+
+example : load [List.replicate 16 1, List.replicate 20 2] = none := by decide
+example : load [] = none := by decide
+
+/-- a 24-byte key is kept by the loader (it is a valid AES-192 key) -/
+example : load [List.replicate 16 1, List.replicate 24 2, List.replicate 32 3]
+    = some [List.replicate 16 1, List.replicate 24 2, List.replicate 32 3] := by decide
+
+/-- The invariant of a running node: the keyring file loads to the node's ring. -/
+def FileLoadsToRing (n : Node) : Prop := n.file.bind load = some n.ring
+
+theorem handle_ok_file (n : Node) (op : Op) (key : Option Key) (hf : n.hasFile = true)
+    (h : (handle n op key).2 = .ok) : (handle n op key).1.file = some (handle n op key).1.ring := by
+  unfold handle at h ⊢
+  cases key with
+  | none => simp at h
+  | some k =>
+    simp only at h ⊢
+    by_cases hne : n.ring.isEmpty = true
+    · simp [hne] at h
+    · simp only [hne, Bool.false_eq_true, ↓reduceIte] at h ⊢
+      cases op with
+      | install =>
+        simp only at h ⊢
+        unfold addKey at h ⊢
+        by_cases hv : validKey k = true <;> by_cases hc : n.ring.contains k = true <;>
+          simp_all [writeKeyringFile]
+      | use =>
+        simp only at h ⊢
+        unfold useKey at h ⊢
+        by_cases hc : n.ring.contains k = true <;> simp_all [writeKeyringFile]
+      | remove =>
+        simp only at h ⊢
+        unfold removeKey at h ⊢
+        cases hr : n.ring with
+        | nil => simp [hr] at hne
+        | cons p rest =>
+          simp only [hr] at h ⊢
+          by_cases hkp : (k == p) = true <;> by_cases hc : (p :: rest).contains k = true <;>
+            simp_all [writeKeyringFile]
+
+theorem handle_hasFile (n : Node) (op : Op) (key : Option Key) : (handle n op key).1.hasFile = n.hasFile := by
+  unfold handle
+  cases key with
+  | none => rfl
+  | some k =>
+    simp only
+    split
+    · rfl
+    · split
+      · rfl
+      · cases op <;> simp [writeKeyringFile] <;> split <;> rfl
+
+theorem handle_inv (n : Node) (op : Op) (key : Option Key) (hf : n.hasFile = true)
+    (hok : RingOK n.ring) (h : FileLoadsToRing n) :
+    FileLoadsToRing (handle n op key).1 := by
+  by_cases hs : (handle n op key).2 = .ok
+  · unfold FileLoadsToRing
+    rw [handle_ok_file n op key hf hs]
+    exact C22_reload_exact _ (handle_RingOK n op key hok)
+  · rw [C22_rejected_noop n op key hs]; exact h
+
+theorem run_inv (ops : List (Op × Option Key)) (n : Node) (hf : n.hasFile = true)
+    (hok : RingOK n.ring) (h : FileLoadsToRing n) : FileLoadsToRing (run n ops) ∧ RingOK (run n ops).ring := by
+  induction ops generalizing n with
+  | nil => exact ⟨h, hok⟩
+  | cons o rest ih =>
+    obtain ⟨op, key⟩ := o
+    exact ih _ (by rw [handle_hasFile]; exact hf) (handle_RingOK n op key hok) (handle_inv n op key hf hok h)
+
+/-- **C22, first sentence, from the agent's start.**  An agent started on ANY keyring file `f`
+that its loader accepts (ring `r`), then handling ANY sequence of install / use / remove
+requests — valid, wrong length, absent, primary, duplicate, undecodable; accepted or rejected —
+always has a keyring file that loads, at the next start, into exactly its current ring: same
+keys in the same order, hence the same primary key.  No assumption on `f`, `r` or the requests. -/
+theorem C22_persisted_from_start (f : List Key) (r : Ring) (hload : load f = some r)
+    (ops : List (Op × Option Key)) (n : Nat) :
+    (run ⟨r, some f, true⟩ (ops.take n)).file.bind load = some (run ⟨r, some f, true⟩ (ops.take n)).ring ∧
+    ((run ⟨r, some f, true⟩ (ops.take n)).file.bind load).map List.head? =
+      some (run ⟨r, some f, true⟩ (ops.take n)).ring.head? := by
+  have := run_inv (ops.take n) ⟨r, some f, true⟩ rfl (load_RingOK f r hload) (by simpa [FileLoadsToRing] using hload)
+  exact ⟨this.1, by rw [this.1]; rfl⟩
+
+example : load [List.replicate 16 1] = some [List.replicate 16 1] := by decide
+
+/-- … and restarting (ring := what the file loads to) changes nothing, so the statement
+extends over any number of restarts. -/
+theorem C22_restart_same (n : Node) (h : FileLoadsToRing n) :
+    ∃ f, n.file = some f ∧ load f = some n.ring := by
+  unfold FileLoadsToRing at h
+  cases hf : n.file with
+  | none => rw [hf] at h; simp at h
+  | some f => exact ⟨f, rfl, by rw [hf] at h; simpa using h⟩
+
+/-! ### the hypotheses that remain are necessary -/
+
+/-- Without "the file loads to the ring" at the start (e.g. the file was replaced behind the
+node's back) a rejected request leaves the mismatch: the hypothesis of `C22_file_tracks` /
+the start condition of `C22_persisted_from_start` cannot be dropped. -/
+theorem C22_start_condition_needed :
+    let n : Node := ⟨[List.replicate 16 1], some [List.replicate 16 2], true⟩
+    (run n [(.use, some (List.replicate 16 3))]).file.bind load ≠ some (run n [(.use, some (List.replicate 16 3))]).ring := by
+  decide
+
+/-- `RingOK` in `C22_reload_exact` cannot be dropped: a list with a duplicate or with a key of
+a wrong length does not reload to itself (memberlist never produces such a ring:
+`C22_loader_wellformed`, `handle_RingOK`). -/
+theorem C22_ringOK_needed :
+    load [List.replicate 16 1, List.replicate 16 1] ≠ some [List.replicate 16 1, List.replicate 16 1] ∧
+    load [List.replicate 16 1, List.replicate 5 2] ≠ some [List.replicate 16 1, List.replicate 5 2] := by decide
+
+/-! ### which requests are rejected -/
+
+/-- On a node with encryption enabled: install is rejected exactly for a wrong key length,
+use exactly for a key not on the ring, remove exactly for the primary key; an undecodable
+payload is always rejected. -/
+theorem C22_rejection_classes (n : Node) (hok : RingOK n.ring) (k : Key) :
+    ((handle n .install (some k)).2 = (if validKey k then .ok else .badlen)) ∧
+    ((handle n .use (some k)).2 = (if n.ring.contains k then .ok else .absent)) ∧
+    ((handle n .remove (some k)).2 = (if some k = n.ring.head? then .primary else .ok)) ∧
+    (∀ op, (handle n op none).2 = .decode) := by
+  have hne : n.ring.isEmpty = false := by
+    cases hr : n.ring with
+    | nil => exact absurd hr hok.1
+    | cons _ _ => rfl
+  refine ⟨?_, ?_, ?_, fun op => rfl⟩
+  · unfold handle
+    simp only [hne, Bool.false_eq_true, ↓reduceIte]
+    by_cases hv : validKey k = true
+    · by_cases hk : k ∈ n.ring
+      · rw [addKey_existing _ _ hv hk]; simp [hv]
+      · rw [addKey_new n.ring k hok.1 (RingOK_append n.ring k hok hk hv).2.1 hv]; simp [hv]
+    · have hv' : validKey k = false := by simpa using hv
+      rw [addKey_invalid _ _ hv']; simp [hv']
+  · unfold handle useKey
+    simp only [hne, Bool.false_eq_true, ↓reduceIte]
+    cases n.ring.contains k <;> simp
+  · unfold handle
+    simp only [hne, Bool.false_eq_true, ↓reduceIte]
+    cases hr : n.ring with
+    | nil => exact absurd hr hok.1
+    | cons p rest =>
+      by_cases hkp : k = p
+      · subst hkp; simp [removeKey]
+      · rw [removeKey_ok p rest k (hr ▸ hok) hkp]
+        have : ¬ (some k = some p) := fun e => hkp (Option.some.inj e)
+        simp [this]
+
+example : RingOK [List.replicate 16 1] := by decide
+
+/-! ## the decisive shapes of the source (regenerated on every run)
+
+`SerfModel.Gen.KeyringPersist` holds the statement skeletons of the three handlers, of
+`writeKeyringFile`, of `loadKeyringFile` and of memberlist's keyring functions.  The
+obligations below are the facts of those shapes that the model's `handle`,
+`writeKeyringFile`, `load` and ring operations transcribe. -/
+
+open SerfModel.SourceShape SerfModel.Gen.KeyringPersist
+
+def opLine (op : String) : String := "if err := keyring." ++ op ++ "(req.Key); err != nil {"
+def writeLine : String := "if err := s.serf.writeKeyringFile(); err != nil {"
+
+/-- a handler first applies the ring operation, leaves (goto SEND) when it failed, and only
+then writes the file; success is reported only after the write; the operation is reached
+only with a decoded payload and encryption enabled -/
+def handlerShapeOK (op : String) (sk : List String) : Bool :=
+  hasBlock [opLine op, "response.Message = err.Error()", "goto SEND", "}"] sk &&
+  hasBlock [writeLine, "response.Message = err.Error()", "goto SEND", "}"] sk &&
+  before (opLine op) writeLine sk &&
+  before writeLine "response.Result = true" sk &&
+  before "if !s.serf.EncryptionEnabled() {" (opLine op) sk &&
+  before "err = decodeMessage(q.Payload[1:], &req)" "if !s.serf.EncryptionEnabled() {" sk &&
+  hasBlock ["if len(q.Payload) < 1 {", "goto SEND", "}"] sk &&
+  hasBlock ["if err != nil {", "goto SEND", "}"] sk &&
+  hasBlock ["response.Result = true", "SEND:", "s.sendKeyResponse(q, &response)"] sk
+
+/-- **ring operation, then file write** (seeded C22-a persisted before validating) -/
+theorem C22_src_handlers_op_then_write :
+    handlerShapeOK "AddKey" handleInstallKey = true ∧
+    handlerShapeOK "UseKey" handleUseKey = true ∧
+    handlerShapeOK "RemoveKey" handleRemoveKey = true := by decide
+
+/-- install writes only when a keyring file is configured (`handle`'s `.install` branch) -/
+theorem C22_src_install_file_condition :
+    hasBlock ["if s.serf.config.KeyringFile != \"\" {", writeLine, "response.Message = err.Error()", "goto SEND", "}", "}"]
+      handleInstallKey = true := by decide
+
+/-- nothing but the three handlers, through `writeKeyringFile`, touches the keyring file -/
+theorem C22_src_only_writers :
+    fileWriterCalls = ["handleInstallKey: s.serf.writeKeyringFile", "handleUseKey: s.serf.writeKeyringFile",
+      "handleRemoveKey: s.serf.writeKeyringFile"] := by decide
+
+/-- **the file is exactly `GetKeys()`, in ring order, primary first** (`writeKeyringFile` in
+the model: `file := some ring`), and nothing is written without a configured file -/
+theorem C22_src_writer_ring_order :
+    hasBlock ["if len(s.config.KeyringFile) == 0 {", "return nil", "}"] writeKeyringFile = true ∧
+    hasBlock ["keysRaw := keyring.GetKeys()", "keysEncoded := make([]string, len(keysRaw))",
+      "for i, key := range keysRaw {", "keysEncoded[i] = base64.StdEncoding.EncodeToString(key)", "}",
+      "encodedKeys, err := json.MarshalIndent(keysEncoded, \"\", \" \")"] writeKeyringFile = true ∧
+    once "if err = os.WriteFile(s.config.KeyringFile, encodedKeys, 0600); err != nil {" writeKeyringFile = true ∧
+    writeKeyringFile.length = 17 := by decide
+
+/-- **the loader keeps every entry and takes the first as primary** (seeded C22-b dropped
+24-byte keys): the decode loop stores each decoded entry at its index, has no `continue`
+and no length test of its own; an empty list is an error; `NewKeyring(keys, keys[0])` -/
+theorem C22_src_loader_keeps_all :
+    hasBlock ["keysDecoded := make([][]byte, len(keys))", "for i, key := range keys {",
+      "keyBytes, err := base64.StdEncoding.DecodeString(key)", "if err != nil {",
+      "return fmt.Errorf(\"Failed to decode key from keyring: %s\", err)", "}", "keysDecoded[i] = keyBytes", "}",
+      "if len(keysDecoded) == 0 {", "return fmt.Errorf(\"Keyring file contains no keys\")", "}",
+      "keyring, err := memberlist.NewKeyring(keysDecoded, keysDecoded[0])", "if err != nil {",
+      "return fmt.Errorf(\"Failed to restore keyring: %s\", err)", "}",
+      "a.conf.MemberlistConfig.Keyring = keyring", "return nil"] loadKeyringFile = true ∧
+    absent "continue" loadKeyringFile = true := by decide
+
+/-- the accepted key lengths are memberlist's -/
+theorem C22_src_valid_lens : validKeyLens = validLens := by decide
+
+/-- memberlist's keyring functions, as transcribed by `newKeyring`, `addKey`, `useKey`,
+`removeKey`, `installKeys` (version pinned in go.mod) -/
+theorem C22_src_memberlist :
+    mlNewKeyring = ["keyring := &Keyring{}", "keyring.init()", "if len(keys) > 0 || len(primaryKey) > 0 {",
+      "if len(primaryKey) == 0 {", "return nil, fmt.Errorf(\"empty primary key not allowed\")", "}",
+      "if err := keyring.AddKey(primaryKey); err != nil {", "return nil, err", "}", "for _, key := range keys {",
+      "if err := keyring.AddKey(key); err != nil {", "return nil, err", "}", "}", "}", "return keyring, nil"] ∧
+    mlAddKey = ["if err := ValidateKey(key); err != nil {", "return err", "}", "for _, installedKey := range k.keys {",
+      "if bytes.Equal(installedKey, key) {", "return nil", "}", "}", "keys := append(k.keys, key)",
+      "primaryKey := k.GetPrimaryKey()", "if primaryKey == nil {", "primaryKey = key", "}",
+      "k.installKeys(keys, primaryKey)", "return nil"] ∧
+    mlUseKey = ["for _, installedKey := range k.keys {", "if bytes.Equal(key, installedKey) {",
+      "k.installKeys(k.keys, key)", "return nil", "}", "}",
+      "return fmt.Errorf(\"requested key is not in the keyring\")"] ∧
+    mlRemoveKey = ["if bytes.Equal(key, k.keys[0]) {", "return fmt.Errorf(\"removing the primary key is not allowed\")", "}",
+      "for i, installedKey := range k.keys {", "if bytes.Equal(key, installedKey) {",
+      "keys := append(k.keys[:i], k.keys[i+1:]...)", "k.installKeys(keys, k.keys[0])", "}", "}", "return nil"] ∧
+    mlInstallKeys = ["k.l.Lock()", "defer k.l.Unlock()", "newKeys := [][]byte{primaryKey}", "for _, key := range keys {",
+      "if !bytes.Equal(key, primaryKey) {", "newKeys = append(newKeys, key)", "}", "}", "k.keys = newKeys"] := by decide
 
 end SerfProofs.C22
